@@ -28,7 +28,8 @@ type Peers struct {
 	snowflakeChan chan *WebRTCPeer
 	activePeers   *list.List
 
-	melt chan struct{}
+	melt    chan struct{}
+	endOnce sync.Once
 
 	collectLock sync.Mutex
 }
@@ -123,8 +124,12 @@ func (p *Peers) purgeClosedPeers() {
 }
 
 // End closes all active connections to Peers contained here, and stops the
-// collection of future Peers.
+// collection of future Peers. Only the first call has an effect.
 func (p *Peers) End() {
+	p.endOnce.Do(p.end)
+}
+
+func (p *Peers) end() {
 	close(p.melt)
 	verifhook.Point("client.peers.end.after-melt", p)
 	p.collectLock.Lock()
